@@ -172,6 +172,9 @@ enum VOp {
     StartBad,
     /// a request whose target refuses: the server answers with a failure verdict, the session stays healthy
     StartRefused,
+    /// a request during which session creation fails if one is needed: 0 = the dial is refused, 1 = the server drops
+    /// the connection before the TLS handshake (the fault is withdrawn after the request)
+    StartFaulty(u8),
     Finish(usize),
     /// the server drops the j-th connection the client dialled
     Die(usize),
@@ -180,7 +183,7 @@ enum VOp {
 }
 
 fn vstr(h: &[VOp]) -> String {
-    h.iter().map(|o| match o { VOp::Start => "start".to_string(), VOp::StartBad => "start(destination rejected locally)".to_string(), VOp::StartRefused => "start(target refuses)".to_string(), VOp::Finish(i) => format!("finish({i})"), VOp::Die(j) => format!("die({j})"), VOp::Wait(0) => "wait(I/2)".to_string(), VOp::Wait(_) => "wait(>T+I)".to_string() }).collect::<Vec<_>>().join(",")
+    h.iter().map(|o| match o { VOp::Start => "start".to_string(), VOp::StartBad => "start(destination rejected locally)".to_string(), VOp::StartRefused => "start(target refuses)".to_string(), VOp::StartFaulty(0) => "start(a dial would be refused)".to_string(), VOp::StartFaulty(_) => "start(a new connection would be dropped before the TLS handshake)".to_string(), VOp::Finish(i) => format!("finish({i})"), VOp::Die(j) => format!("die({j})"), VOp::Wait(0) => "wait(I/2)".to_string(), VOp::Wait(_) => "wait(>T+I)".to_string() }).collect::<Vec<_>>().join(",")
 }
 
 /// One history on the real Client over the in-memory dialer seam, virtual time; same rule and keys as the LX family,
@@ -208,8 +211,14 @@ fn vhistory(interval_ms: u64, timeout_ms: u64, min_idle: usize, h: Vec<VOp>) -> 
             for (step, op) in h.iter().enumerate() {
                 let upto = || vstr(&h[..=step]);
                 match op {
-                    VOp::Start | VOp::StartBad | VOp::StartRefused => {
+                    VOp::Start | VOp::StartBad | VOp::StartRefused | VOp::StartFaulty(_) => {
                         nreq += 1;
+                        let faulty = matches!(op, VOp::StartFaulty(_));
+                        match op {
+                            VOp::StartFaulty(0) => w.refuse_dials.store(1, std::sync::atomic::Ordering::SeqCst),
+                            VOp::StartFaulty(_) => w.drop_before_handshake.store(1, std::sync::atomic::Ordering::SeqCst),
+                            _ => {}
+                        }
                         let bad = *op == VOp::StartBad;
                         let refused = *op == VOp::StartRefused;
                         let logs0 = w.logs();
@@ -223,6 +232,8 @@ fn vhistory(interval_ms: u64, timeout_ms: u64, min_idle: usize, h: Vec<VOp>) -> 
                         let host = if bad { "x".repeat(300) } else { "example.com".to_string() };
                         let r = crate::sess::within(w.client.create_proxy_stream((host, if refused { REFUSED_PORT } else { 1000 + nreq as u16 }))).await;
                         settle().await;
+                        w.refuse_dials.store(0, std::sync::atomic::Ordering::SeqCst);
+                        w.drop_before_handshake.store(0, std::sync::atomic::Ordering::SeqCst);
                         let logs1 = w.logs();
                         // sessions that were healthy before this request and that the client itself closed while serving it
                         // (the server did not drop them, no idle timeout passed): they do not stop counting as healthy
@@ -260,6 +271,8 @@ fn vhistory(interval_ms: u64, timeout_ms: u64, min_idle: usize, h: Vec<VOp>) -> 
                                 peak = peak.max(active.len());
                             }
                             Some(Err(_)) if bad || refused => {}
+                            // session creation failed: legitimate only if no healthy session was in the pool
+                            Some(Err(_)) if faulty && healthy_pooled.is_empty() => {}
                             other => {
                                 viols.push(("C13:request-failed".into(), format!("[{}] (virtual time): {:?}", upto(), other.map(|r| r.map(|_| ()).map_err(|e| e.to_string())))));
                                 break;
@@ -349,11 +362,18 @@ fn vhistories(depth: usize) -> Vec<Vec<VOp>> {
                 next.push((n, a, di, de));
             };
             push(VOp::Start, active + 1, dials + 1, *deaths);
-            if h.iter().filter(|o| **o == VOp::StartBad).count() < 1 {
+            let has_faulty = h.iter().any(|o| matches!(o, VOp::StartFaulty(_)));
+            if !has_faulty && h.iter().filter(|o| **o == VOp::StartBad).count() < 1 {
                 push(VOp::StartBad, *active, dials + 1, *deaths);
             }
-            if h.iter().filter(|o| **o == VOp::StartRefused).count() < 1 {
+            if !has_faulty && h.iter().filter(|o| **o == VOp::StartRefused).count() < 1 {
                 push(VOp::StartRefused, *active, dials + 1, *deaths);
+            }
+            // (at most one of the three kinds of failing request per history with a faulty one)
+            if h.iter().filter(|o| matches!(o, VOp::StartFaulty(_) | VOp::StartBad | VOp::StartRefused)).count() < 1 {
+                // (a faulty request that finds a pooled session succeeds and stays active)
+                push(VOp::StartFaulty(0), active + 1, dials + 1, *deaths);
+                push(VOp::StartFaulty(1), active + 1, dials + 1, *deaths);
             }
             for i in 0..*active {
                 push(VOp::Finish(i), active - 1, *dials, *deaths);
